@@ -1362,6 +1362,130 @@ func runC16(c *Ctx) {
 		}
 		addGate(h, "role", "admin", false)
 	}
+
+	// --- ONE handler chain, built once, serving a SEQUENCE of requests ---
+	// RequireAccount(RequireAttribute(name, value)(app)) is constructed once per gate, as an application does
+	// at start-up; requests of different users (attribute carries the value / another value / attribute absent /
+	// no attributes) and requests that reach the same gate instance without any session arrive in several
+	// orders.  Every verdict must be the one a freshly built chain gives (the model is per request).
+	{
+		d := deps[0]
+		var users []*honest
+		for _, h := range honestS {
+			if h.d == d && len(users) < len(fixedAssertions()) {
+				users = append(users, h)
+			}
+		}
+		type gateDef struct{ name, value string }
+		for gi, gd := range []gateDef{{"role", "admin"}, {"isMemberOf", "staff"}, {"eduPersonAffiliation", "Administrators"}, {"SessionIndex", "idx-1"}} {
+			admits := func(h *honest) bool {
+				for _, st := range h.a.Statements {
+					for _, at := range st {
+						n := at.Friendly
+						if n == "" {
+							n = at.Name
+						}
+						if n == gd.name {
+							for _, v := range at.Values {
+								if v == gd.value {
+									return true
+								}
+							}
+						}
+					}
+				}
+				if gd.name == "SessionIndex" {
+					for _, v := range h.a.Authn {
+						if v == gd.value {
+							return true
+						}
+					}
+				}
+				return false
+			}
+			var yes, no []*honest
+			for _, h := range users {
+				if admits(h) {
+					yes = append(yes, h)
+				} else {
+					no = append(no, h)
+				}
+			}
+			if len(yes) == 0 || len(no) == 0 {
+				continue
+			}
+			// nil entries are requests without any session that reach the gate instance directly
+			orders := map[string][]*honest{
+				"admitted-first":        append(append(append([]*honest{}, yes...), no...), nil),
+				"refused-first":         append(append(append([]*honest{nil}, no...), yes...), append(no, nil)...),
+				"alternating":           nil,
+				"admitted-then-nothing": {yes[0], nil, nil, no[0], nil},
+			}
+			for i := 0; i < len(no); i++ {
+				orders["alternating"] = append(orders["alternating"], no[i], yes[i%len(yes)], nil)
+			}
+			onames := []string{"admitted-first", "refused-first", "alternating", "admitted-then-nothing"}
+			for _, on := range onames {
+				// the chain of this order: built once
+				var cur *gateObs
+				inner := http.HandlerFunc(func(w http.ResponseWriter, r *http.Request) {
+					cur.Ran = true
+					w.WriteHeader(http.StatusTeapot)
+				})
+				gate := samlsp.RequireAttribute(gd.name, gd.value)(inner)
+				chain := d.mw.RequireAccount(gate)
+				for pos, h := range orders[on] {
+					o := gateObs{}
+					cur = &o
+					sess := "None"
+					var attrs []kv
+					var who any = "no session"
+					func() {
+						defer func() {
+							if r := recover(); r != nil {
+								o.Panic = true
+							}
+						}()
+						rec := httptest.NewRecorder()
+						req := httptest.NewRequest("GET", "/protected/page?x=1", nil)
+						req.Host = mustURL(d.url).Host
+						if h != nil {
+							setClock(h.t0 + nsPerS)
+							req.Header.Set("Cookie", d.sessionCookie()+"="+h.w.bytes)
+							chain.ServeHTTP(rec, req)
+						} else {
+							gate.ServeHTTP(rec, req) // the same gate instance, no session in the context
+						}
+						o.Status = rec.Code
+					}()
+					if h != nil {
+						seen := runGate(d, d.sessionCookie()+"="+h.w.bytes, nil) // a fresh chain: what the application sees
+						if !seen.Ran {
+							c.Count("gate/no-session-unexpected")
+							continue
+						}
+						attrs = seen.Attrs
+						sess = "(Some " + amapTerm(attrs) + ")"
+						who = h.a
+					}
+					admitted := o.Ran
+					c.Count(fmt.Sprintf("gate-shared-chain/%s/admitted=%v", on, admitted))
+					var ok *bool
+					if (admitted && o.Status != http.StatusTeapot) || (!admitted && o.Status != http.StatusForbidden) || o.Panic {
+						ok = Bptr(false)
+					}
+					c.Add(ggate, &Case{
+						Key:        map[string]string{"op": "require_attribute", "chain": "shared", "order": on, "gate": gd.name + "=" + gd.value},
+						Input:      map[string]any{"deployment": d.name, "gate": gd, "order": on, "position": pos, "gate_index": gi, "requester": who},
+						Obs:        map[string]any{"admitted": admitted, "status": o.Status, "attributes_seen": attrs},
+						Term:       fmt.Sprintf("{| gc_session := %s; gc_name := %s; gc_value := %s; gc_admitted := %s |}", sess, emit.Str(gd.name), emit.Str(gd.value), emit.Bool(admitted)),
+						ImplSpecOK: ok,
+						Dedup:      fmt.Sprintf("shared|%d|%s|%d", gi, on, pos),
+					})
+				}
+			}
+		}
+	}
 }
 
 // replayWire, when set, is the stored Gallina term of the wire under replay
